@@ -134,6 +134,20 @@ MergeVerdict(c) ==
   ELSE IF ~Refines(c.c, c.out) THEN "merge-cuts-a-chunk"
   ELSE "ok"
 
+\* divide_to_width(c, w): the split pass of the planner (find_split_rechunk) divides every block wider than w.
+\* Contract: only splits (every old boundary kept), every piece in 1..w, and minimal and even per old block:
+\* block i becomes exactly ceil(c[i] / w) pieces whose widths differ by at most one.
+DomDivide(nmax) == UNION {UNION {{<<c, w>> : w \in 1..n} : c \in Chunkings(n)} : n \in 1..nmax}
+PiecesOf(out, c, i) == {j \in 1..Len(out) : Offset(c, i) <= Offset(out, j) /\ Offset(out, j) < Offset(c, i) + c[i]}
+DivideVerdict(c) ==
+  IF SumSeq(c.out) # SumSeq(c.c) THEN "sum-changed"
+  ELSE IF \E j \in 1..Len(c.out) : c.out[j] <= 0 THEN "non-positive-piece"
+  ELSE IF \E j \in 1..Len(c.out) : c.out[j] > c.k THEN "piece-wider-than-max-width"
+  ELSE IF ~Refines(c.out, c.c) THEN "divide-merged-across-an-old-boundary"
+  ELSE IF \E i \in 1..Len(c.c) : Cardinality(PiecesOf(c.out, c.c, i)) # CeilDiv(c.c[i], c.k) THEN "not-minimal-number-of-pieces"
+  ELSE IF \E i \in 1..Len(c.c) : \E j1, j2 \in PiecesOf(c.out, c.c, i) : c.out[j1] - c.out[j2] > 1 THEN "pieces-uneven"
+  ELSE "ok"
+
 (***************************************************************************)
 (* C16 chunk normalisation                                                 *)
 (***************************************************************************)
